@@ -376,7 +376,7 @@ func scenarios(tier string) []*vsched.Scenario {
 	if tier == "thorough" {
 		maxLen, b, longN = 4, 3, 70000
 	}
-	out = append(out, sharedOptionScenario(false, 2), sharedOptionScenario(true, 2), payloadScenario(false, 0), payloadScenario(true, 0), longListScenario(false, longN), longListScenario(true, longN), shapeSweepScenario(false, 12), shapeSweepScenario(true, 12))
+	out = append(out, sharedOptionScenario(false, 2), sharedOptionScenario(true, 2), payloadScenario(false, 0), payloadScenario(true, 0), longListScenario(false, longN), longListScenario(true, longN), shapeSweepScenario(false, 33), shapeSweepScenario(true, 33))
 	for _, pool := range []int{1, 2} {
 		out = append(out, twoCallsScenario(false, pool, 1), twoCallsScenario(true, pool, 1))
 	}
